@@ -1,5 +1,6 @@
 """C15 — malformed or foreign JSON is rejected, never loaded as a corrupted aggregator."""
 import copy
+import json
 import random
 
 import gen
@@ -119,17 +120,29 @@ def _node(doc, path):
     return doc
 
 
+def _dup_bag_value(d):
+    """some Bag in the document lists the same value twice"""
+    if isinstance(d, dict):
+        vs = d.get("values")
+        if isinstance(vs, list) and vs and all(isinstance(x, dict) and "w" in x and "v" in x for x in vs):
+            keys = [json.dumps(x["v"], sort_keys=True) for x in vs]
+            if len(set(keys)) != len(keys):
+                return True
+        return any(_dup_bag_value(v) for v in d.values())
+    if isinstance(d, list):
+        return any(_dup_bag_value(v) for v in d)
+    return False
+
+
 def excluded(m, doc):
     desc, path, action, arg = m
-    if path == [] and action == "set" and arg[0] not in doc:
-        return True   # known finding C15-header-extra-key
     if action == "set" and arg[0] in STRUCT_PARAMS and arg[1] == "nan":
         return True   # non-finite structural parameters: outside the model (its parameters are rationals)
-    if action == "set" and arg[0] == "v":
-        return True   # known finding C15-bag-value-type (value of a Bag entry is not checked against the range)
-    if action in ("pop", "seti", "dup") and path and path[-1] == "v":
-        return True   # same finding: components of a vector-valued Bag entry
-    if action == "dup" and path and path[-1] == "values" and isinstance(_node(doc, path), list) and _node(doc, path) and isinstance(_node(doc, path)[0], dict) and "w" in _node(doc, path)[0]:
+    if action == "set" and arg[0] == "v" and isinstance(arg[1], bool):
+        return True   # a JSON boolean where a number is expected reads as 1/0 (Python: bool is a numbers.Real); for Bag values the model does not mirror it
+    if action == "seti" and path and path[-1] == "v" and isinstance(arg[1], bool):
+        return True   # same, for a component of a vector-valued Bag entry
+    if action in ("dup", "set", "seti") and _dup_bag_value(apply_mutation(doc, m)):
         return True   # known finding C15-bag-duplicate-value (the last of two equal Bag values wins)
     if action == "set" and (arg[0] == "name" or arg[0].endswith(":name")) and arg[0] not in _node(doc, path) and isinstance(arg[1], str):
         return True   # known finding C15-optional-name-key (accepted where the emitter never writes it, then dropped/moved)
